@@ -19,6 +19,7 @@ type vStateSnap struct {
 	name  string
 	bytes []byte
 	tags  map[string]vTagSt
+	settings vSettings
 }
 
 type vCrash struct {
@@ -30,6 +31,7 @@ type vCrash struct {
 	What   string
 	Cut    int
 	ExpTags map[string]vTagSt
+	ExpSettings *vSettings
 	Note   string
 	AtStep int
 }
@@ -54,7 +56,7 @@ func (s *vScenario) trackStateFile(st *vState) {
 	if err != nil {
 		return
 	}
-	s.stateHist = append(s.stateHist, vStateSnap{name: st.StateFile, bytes: b, tags: st.Tags})
+	s.stateHist = append(s.stateHist, vStateSnap{name: st.StateFile, bytes: b, tags: st.Tags, settings: st.Settings})
 	if len(s.stateHist) > 2 {
 		s.stateHist = s.stateHist[len(s.stateHist)-2:]
 	}
@@ -96,6 +98,7 @@ func (s *vScenario) crash(ev vStep, atStep int) (string, string, error) {
 				return "", "", err
 			}
 			c.ExpTags = map[string]vTagSt{}
+			c.ExpSettings = &vSettings{Hooks: []string{}, Eps: []string{}}
 			c.Note = fmt.Sprintf("state file cut to %d of %d bytes", cut, len(cur.bytes))
 			if n > 1 {
 				prev := s.stateHist[n-2]
@@ -103,6 +106,8 @@ func (s *vScenario) crash(ev vStep, atStep int) (string, string, error) {
 					return "", "", err
 				}
 				c.ExpTags = prev.tags
+				ps := prev.settings
+				c.ExpSettings = &ps
 			}
 		}
 	case "idx":
@@ -145,6 +150,8 @@ func (s *vScenario) restartOn(c *vCrash, free bool) (*vScenario, string, string)
 	n := &vScenario{w: s.w, dirs: map[string]string{"base": c.Base}, fileIDs: s.fileIDs, fileCont: map[string][]vEntry{},
 		defs: s.defs, views: map[string]*View{}, viewFirst: map[string]string{}, convNames: s.convNames, orphanFlag: map[string]bool{}, partial: map[string]bool{}, afterCrash: true}
 	n.nextFile = s.nextFile
+	n.viewConverted = s.viewConverted
+	n.lost = append(append([]int{}, s.lost...), c.Pre.Queue...)
 	for _, d := range []string{"pcap", "index", "snapshot", "state", "converter", "watch"} {
 		n.dirs[d] = filepath.Join(c.Base, d) + "/"
 	}
